@@ -887,7 +887,7 @@ fn c12_states(rep: &mut Report) {
     // returns a UNIT quaternion, not "close enough, unchanged"
     for d in [[1.0, 0.0, 0.0, 0.0], [0.0, 0.6, 0.0, 0.8], [1.0, -2.0, 3.0, -4.0], [1.0, 1.0, 1.0, 1.0], [0.3, 1e-3, 0.0, -0.5]] {
         let n = (d[0] * d[0] + d[1] * d[1] + d[2] * d[2] + d[3] * d[3] as f64).sqrt();
-        for k in [1.0f64, 5.0, 20.0, 40.0, 49.0, 100.0, 1000.0] {
+        for k in [0.001f64, 0.01, 0.05, 1.0, 5.0, 20.0, 40.0, 49.0, 100.0, 1000.0] {
             for sgn in [1.0, -1.0] {
                 let f = (1.0 + sgn * k * 1e-8) / n;
                 quats.push([d[0] * f, d[1] * f, d[2] * f, d[3] * f]);
